@@ -848,6 +848,15 @@ def _compile_module_file(template, text, filename, outputpath, module_writer):
         os.close(dest)
         shutil.move(name, outputpath)
 
+    # the import system trusts a cached bytecode file whose recorded source
+    # mtime (whole seconds) and size match the module file; a module
+    # regenerated within the same second with the same length would
+    # otherwise be loaded from the bytecode of its predecessor
+    try:
+        os.remove(compat.util.cache_from_source(outputpath))
+    except (OSError, NotImplementedError):
+        pass
+
 
 def _get_module_info_from_callable(callable_):
     return _get_module_info(callable_.__globals__["__name__"])
